@@ -78,6 +78,14 @@ def run(ctx):
         tries += 1
         rs = rulesets.gen_ruleset(ctx.rng, with_markov=ctx.rng.random() < 0.7, max_bases=3, max_len=3)
         rs["omen_prob"] = ctx.rng.choice([[("0", 0.4), ("1", 0.2)], [("1", 0.3)], [("1", 0.25), ("0", 0.25)]])
+        if r % 3 == 1:
+            # tie-rich family: several equally probable words, several equally probable masks, several equally
+            # probable digit strings in ONE pre-terminal, so that N can fall behind the first mask of the second word etc.
+            rs["files"]["A3"] = [("cat", 0.4), ("dog", 0.4), ("abc", 0.2)]
+            rs["files"]["C3"] = [("LLL", 0.3), ("ULL", 0.3), ("UUU", 0.3), ("LLU", 0.1)]
+            rs["files"]["D2"] = [("12", 0.25), ("99", 0.25), ("07", 0.25), ("00", 0.25)]
+            rs["files"]["O1"] = [("!", 0.5), ("#", 0.5)]
+            rs["grammar"] = [("A3D2", 0.4), ("D2A3O1", 0.3), ("A3", 0.2)] + [x for x in rs["grammar"] if x[0] == "M"][:1]
         if r % 2 == 0:
             rs = rulesets.normalise(rs)     # like a trained ruleset: needed by the sampling modes
         name = "L%d" % r
@@ -99,6 +107,17 @@ def run(ctx):
             continue
         rulesets.write_ruleset(rs, os.path.join(code, "Rules", name))
         refs[name] = (rs, flags, per_item, ref, [it["pt"][0][0][0] == "M" for it in items])
+        # in-process: the real session loop with EVERY limit N = 1 .. total+1 (capped), so that N falls at every
+        # position relative to every group, mask and Markov-level boundary
+        for nlim in range(1, min(len(ref) + 2, ctx.scale(160, 600))):
+            rr = sched.run_session(g, {}, sc, limit=nlim)
+            dist["inprocess_limit_runs"] = dist.get("inprocess_limit_runs", 0) + 1
+            if rr["out"] != ref[:nlim]:
+                vio.append({"sig": "C09:limit-count" if len(rr["out"]) != min(nlim, len(ref)) else "C09:limit-content",
+                            "what": "session loop with limit %d wrote %d guesses (expected the first %d of %d)"
+                                    % (nlim, len(rr["out"]), min(nlim, len(ref)), len(ref)),
+                            "replay": {"ruleset": rs, "flags": flags, "n": nlim, "mode": "true_prob_order"}})
+                break
         dist["rulesets"] += 1
         r += 1
         bounds, c = [], 0
